@@ -23,13 +23,16 @@ From OV Require Proofs.SrcEqNewtonC.
    variant), with Examples outside the bounds where neither holds;  (3) in the standard model of floating-point arithmetic: the drift
    of the restored coordinates (all columns), the rounding floor of the difference quotient for any function, the total error
    (truncation + floor + drift) and the optimal-step trade-off.
-   Still not proved: that binary64 with its exponent range obeys the standard model for these operations (absent underflow/overflow
-   it is the round-to-nearest instance RoundFlx used in the Examples). *)
+   (4) drift and rounding floor AT BINARY64 ITSELF (primitive floats through Flocq's specification), any closure, "whenever finite".
+   Still not proved: the complex rounding floor (the complex division by (delta, 0) has six roundings); a float version of
+   jacobian_total_error (it is jacobian_entry_floor_float + forward_difference_truncation + the triangle inequality, as in the
+   standard model). *)
 From Coq Require Import Reals Lra Lia ZArith.
 From Coq Require Floats.
 From Flocq Require Core.Core.
 From OV Require Base.RoundModel Inst.FloatInst Model.Complex Proofs.ComplexRound Proofs.RoundFlx
-  Proofs.JacExactGen Proofs.JacExactFloat Proofs.JacExactFloatC Proofs.JacExactRound Proofs.JacExactRoundEx Proofs.JacExactRoundC.
+  Proofs.JacExactGen Proofs.JacExactFloat Proofs.JacExactFloatC Proofs.JacExactRound Proofs.JacExactRoundEx Proofs.JacExactRoundC
+  Proofs.JacExactFloatRound.
 Local Close Scope R_scope.
 Local Open Scope nat_scope.
 
@@ -605,4 +608,106 @@ Proof.
   split; [lra|]. split; [intros x y; exists 0%R; split; [rewrite Rabs_R0; lra|ring]|].
   split; [intros x y; exists 0%R; split; [rewrite Rabs_R0; lra|ring]|].
   do 3 eexists. cbn. reflexivity.
+Qed.
+
+(* ---- the same AT IEEE BINARY64 ITSELF (NReal AF, the instance the correspondence check runs against the Rust code): the standard-model
+   hypotheses are discharged through Flocq's specification of the primitive floats; u64 = 2^-53; "whenever the computed value is finite"
+   (a finite result has finite operands and no overflow happened on the way; + and - have relative error <= u64 even on subnormals) ----
+   state[j] += delta; state[j] -= delta at binary64 *)
+Theorem restore_drift_float : forall x d : PrimFloat.float, ComplexRound.ffinite (PrimFloat.sub (PrimFloat.add x d) d) ->
+  ComplexRound.ffinite x /\ ComplexRound.ffinite d /\ ComplexRound.ffinite (PrimFloat.add x d) /\
+  (Rabs (ComplexRound.FR (PrimFloat.sub (PrimFloat.add x d) d) - ComplexRound.FR x) <=
+    (2 * ComplexRound.u64 + ComplexRound.u64 * ComplexRound.u64) * (Rabs (ComplexRound.FR x) + Rabs (ComplexRound.FR d)))%R.
+Proof. exact JacExactFloatRound.restore_drift_float. Qed.
+Check restore_drift_float : forall x d : PrimFloat.float, ComplexRound.ffinite (PrimFloat.sub (PrimFloat.add x d) d) ->
+  ComplexRound.ffinite x /\ ComplexRound.ffinite d /\ ComplexRound.ffinite (PrimFloat.add x d) /\
+  (Rabs (ComplexRound.FR (PrimFloat.sub (PrimFloat.add x d) d) - ComplexRound.FR x) <=
+    (2 * ComplexRound.u64 + ComplexRound.u64 * ComplexRound.u64) * (Rabs (ComplexRound.FR x) + Rabs (ComplexRound.FR d)))%R.
+Print Assumptions restore_drift_float.
+Example restore_drift_float_nonvacuous :
+  ComplexRound.ffinite (PrimFloat.sub (PrimFloat.add (nth 0 JacExactFloat.exj_x2 (@zero FloatInst.AF)) JacExactFloat.exj_d2) JacExactFloat.exj_d2) /\
+  (* ... and the drift is real: x_0 = 0.9999999999, delta = 1e-8 comes back one ulp smaller *)
+  PrimFloat.ltb (PrimFloat.sub (PrimFloat.add (nth 0 JacExactFloat.exj_x2 (@zero FloatInst.AF)) JacExactFloat.exj_d2) JacExactFloat.exj_d2)
+                (nth 0 JacExactFloat.exj_x2 (@zero FloatInst.AF)) = true.
+Proof. split; [apply ComplexRound.ffinite_SF|]; vm_compute; reflexivity. Qed.
+
+(* all columns of Mat64::jacobian at binary64, any closure: if the state the loop ends with is finite, the j-th call was made within
+   u |x_j + delta| (coordinate j), (2u + u^2)(|x_k| + |delta|) (k < j), 0 (k > j) of x + delta e_j *)
+Theorem jacobian_call_points_drift_float : forall (F : list PrimFloat.float -> res (list PrimFloat.float)) (x : list PrimFloat.float) (d : PrimFloat.float)
+    (st : list PrimFloat.float) (J : matrix FloatInst.AF) (evs : list (list PrimFloat.float)),
+  jacobian_tr (NReal FloatInst.AF) F x d = Ok (st, J, evs) ->
+  (forall k, (k < length x)%nat -> ComplexRound.ffinite (nth k st (@zero FloatInst.AF))) ->
+  evs = x :: map (JacExactGen.call_pt (NReal FloatInst.AF) x d) (seq 0 (length x)) /\ length st = length x /\
+  (forall k, (k < length x)%nat -> ComplexRound.ffinite (nth k x (@zero FloatInst.AF)) /\ ComplexRound.ffinite (PrimFloat.add (nth k x (@zero FloatInst.AF)) d)) /\
+  (forall j k, (j < length x)%nat -> (k < length x)%nat ->
+     (Rabs (ComplexRound.FR (nth k (JacExactGen.call_pt (NReal FloatInst.AF) x d j) (@zero FloatInst.AF)) -
+            (if (k =? j)%nat then ComplexRound.FR (nth j x (@zero FloatInst.AF)) + ComplexRound.FR d else ComplexRound.FR (nth k x (@zero FloatInst.AF)))) <=
+       (if (k =? j)%nat then ComplexRound.u64 * Rabs (ComplexRound.FR (nth k x (@zero FloatInst.AF)) + ComplexRound.FR d)
+        else if (k <? j)%nat then (2 * ComplexRound.u64 + ComplexRound.u64 * ComplexRound.u64) * (Rabs (ComplexRound.FR (nth k x (@zero FloatInst.AF))) + Rabs (ComplexRound.FR d)) else 0))%R) /\
+  (forall k, (k < length x)%nat ->
+     (Rabs (ComplexRound.FR (nth k st (@zero FloatInst.AF)) - ComplexRound.FR (nth k x (@zero FloatInst.AF))) <=
+       (2 * ComplexRound.u64 + ComplexRound.u64 * ComplexRound.u64) * (Rabs (ComplexRound.FR (nth k x (@zero FloatInst.AF))) + Rabs (ComplexRound.FR d)))%R).
+Proof. exact JacExactFloatRound.jacobian_call_points_drift_float_lemma. Qed.
+Check jacobian_call_points_drift_float : forall (F : list PrimFloat.float -> res (list PrimFloat.float)) (x : list PrimFloat.float) (d : PrimFloat.float)
+    (st : list PrimFloat.float) (J : matrix FloatInst.AF) (evs : list (list PrimFloat.float)),
+  jacobian_tr (NReal FloatInst.AF) F x d = Ok (st, J, evs) ->
+  (forall k, (k < length x)%nat -> ComplexRound.ffinite (nth k st (@zero FloatInst.AF))) ->
+  evs = x :: map (JacExactGen.call_pt (NReal FloatInst.AF) x d) (seq 0 (length x)) /\ length st = length x /\
+  (forall k, (k < length x)%nat -> ComplexRound.ffinite (nth k x (@zero FloatInst.AF)) /\ ComplexRound.ffinite (PrimFloat.add (nth k x (@zero FloatInst.AF)) d)) /\
+  (forall j k, (j < length x)%nat -> (k < length x)%nat ->
+     (Rabs (ComplexRound.FR (nth k (JacExactGen.call_pt (NReal FloatInst.AF) x d j) (@zero FloatInst.AF)) -
+            (if (k =? j)%nat then ComplexRound.FR (nth j x (@zero FloatInst.AF)) + ComplexRound.FR d else ComplexRound.FR (nth k x (@zero FloatInst.AF)))) <=
+       (if (k =? j)%nat then ComplexRound.u64 * Rabs (ComplexRound.FR (nth k x (@zero FloatInst.AF)) + ComplexRound.FR d)
+        else if (k <? j)%nat then (2 * ComplexRound.u64 + ComplexRound.u64 * ComplexRound.u64) * (Rabs (ComplexRound.FR (nth k x (@zero FloatInst.AF))) + Rabs (ComplexRound.FR d)) else 0))%R) /\
+  (forall k, (k < length x)%nat ->
+     (Rabs (ComplexRound.FR (nth k st (@zero FloatInst.AF)) - ComplexRound.FR (nth k x (@zero FloatInst.AF))) <=
+       (2 * ComplexRound.u64 + ComplexRound.u64 * ComplexRound.u64) * (Rabs (ComplexRound.FR (nth k x (@zero FloatInst.AF))) + Rabs (ComplexRound.FR d)))%R).
+Print Assumptions jacobian_call_points_drift_float.
+Example jacobian_call_points_drift_float_nonvacuous :
+  jacobian_tr (NReal FloatInst.AF) JacExactFloatRound.exf_F JacExactFloatRound.exf_x JacExactFloatRound.exf_d =
+    Ok ([@one FloatInst.AF], JacExactFloatRound.exf_J, [[@one FloatInst.AF]; [JacExactFloatRound.exf_p0]]) /\
+  (forall k, (k < length JacExactFloatRound.exf_x)%nat -> ComplexRound.ffinite (nth k [@one FloatInst.AF] (@zero FloatInst.AF))).
+Proof. split; [exact JacExactFloatRound.exf_run|exact (proj1 JacExactFloatRound.exf_conditions)]. Qed.
+
+(* the rounding floor of an entry of Mat64::jacobian at binary64, any closure F: q = (f^_i(p_j) (-) f^_i(x)) (/) delta on the values the closure
+   RETURNED; A, B0 = the exact values they approximate with relative error eps (eps = 0, A = FR f^_i(p_j), B0 = FR f^_i(x): the quotient
+   of the returned values).  no_underflow v := v = 0 \/ 2^-1022 <= |v| *)
+Theorem jacobian_entry_floor_float : forall (F : list PrimFloat.float -> res (list PrimFloat.float)) (x : list PrimFloat.float) (d : PrimFloat.float)
+    (J : matrix FloatInst.AF) (evs : list (list PrimFloat.float)),
+  jacobian (NReal FloatInst.AF) F x d = Ok (J, evs) ->
+  exists f0, F x = Ok f0 /\ rows J = length f0 /\ cols J = length x /\
+  forall i j, (i < length f0)%nat -> (j < length x)%nat ->
+    exists fj q, F (JacExactGen.call_pt (NReal FloatInst.AF) x d j) = Ok fj /\ mget J i j = Ok q /\
+      q = PrimFloat.div (PrimFloat.sub (nth i fj (@zero FloatInst.AF)) (nth i f0 (@zero FloatInst.AF))) d /\
+      forall (A B0 eps : R),
+        ComplexRound.ffinite q -> ComplexRound.FR d <> 0%R ->
+        ComplexRound.no_underflow (ComplexRound.FR (PrimFloat.sub (nth i fj (@zero FloatInst.AF)) (nth i f0 (@zero FloatInst.AF))) / ComplexRound.FR d)%R -> (0 <= eps)%R ->
+        (Rabs (ComplexRound.FR (nth i fj (@zero FloatInst.AF)) - A) <= eps * Rabs A)%R -> (Rabs (ComplexRound.FR (nth i f0 (@zero FloatInst.AF)) - B0) <= eps * Rabs B0)%R ->
+        (Rabs (ComplexRound.FR q - (A - B0) / ComplexRound.FR d) <=
+          ((2 * ComplexRound.u64 + ComplexRound.u64 * ComplexRound.u64) * Rabs (A - B0) + eps * ((1 + ComplexRound.u64) * (1 + ComplexRound.u64)) * (Rabs A + Rabs B0)) / Rabs (ComplexRound.FR d))%R.
+Proof. exact JacExactFloatRound.jacobian_entry_floor_float_lemma. Qed.
+Check jacobian_entry_floor_float : forall (F : list PrimFloat.float -> res (list PrimFloat.float)) (x : list PrimFloat.float) (d : PrimFloat.float)
+    (J : matrix FloatInst.AF) (evs : list (list PrimFloat.float)),
+  jacobian (NReal FloatInst.AF) F x d = Ok (J, evs) ->
+  exists f0, F x = Ok f0 /\ rows J = length f0 /\ cols J = length x /\
+  forall i j, (i < length f0)%nat -> (j < length x)%nat ->
+    exists fj q, F (JacExactGen.call_pt (NReal FloatInst.AF) x d j) = Ok fj /\ mget J i j = Ok q /\
+      q = PrimFloat.div (PrimFloat.sub (nth i fj (@zero FloatInst.AF)) (nth i f0 (@zero FloatInst.AF))) d /\
+      forall (A B0 eps : R),
+        ComplexRound.ffinite q -> ComplexRound.FR d <> 0%R ->
+        ComplexRound.no_underflow (ComplexRound.FR (PrimFloat.sub (nth i fj (@zero FloatInst.AF)) (nth i f0 (@zero FloatInst.AF))) / ComplexRound.FR d)%R -> (0 <= eps)%R ->
+        (Rabs (ComplexRound.FR (nth i fj (@zero FloatInst.AF)) - A) <= eps * Rabs A)%R -> (Rabs (ComplexRound.FR (nth i f0 (@zero FloatInst.AF)) - B0) <= eps * Rabs B0)%R ->
+        (Rabs (ComplexRound.FR q - (A - B0) / ComplexRound.FR d) <=
+          ((2 * ComplexRound.u64 + ComplexRound.u64 * ComplexRound.u64) * Rabs (A - B0) + eps * ((1 + ComplexRound.u64) * (1 + ComplexRound.u64)) * (Rabs A + Rabs B0)) / Rabs (ComplexRound.FR d))%R.
+Print Assumptions jacobian_entry_floor_float.
+(* the identity on R^1 at x = 1, delta = 0.1 (not dyadic): the entry is 1.0000000000000009 > 1 *)
+Example jacobian_entry_floor_float_nonvacuous :
+  jacobian (NReal FloatInst.AF) JacExactFloatRound.exf_F JacExactFloatRound.exf_x JacExactFloatRound.exf_d =
+    Ok (JacExactFloatRound.exf_J, [[@one FloatInst.AF]; [JacExactFloatRound.exf_p0]]) /\
+  ComplexRound.ffinite (PrimFloat.div (PrimFloat.sub JacExactFloatRound.exf_p0 (@one FloatInst.AF)) JacExactFloatRound.exf_d) /\
+  ComplexRound.FR JacExactFloatRound.exf_d <> 0%R /\
+  ComplexRound.no_underflow (ComplexRound.FR (PrimFloat.sub JacExactFloatRound.exf_p0 (@one FloatInst.AF)) / ComplexRound.FR JacExactFloatRound.exf_d)%R /\
+  PrimFloat.ltb (@one FloatInst.AF) (PrimFloat.div (PrimFloat.sub JacExactFloatRound.exf_p0 (@one FloatInst.AF)) JacExactFloatRound.exf_d) = true.
+Proof.
+  split; [unfold jacobian; rewrite JacExactFloatRound.exf_run; reflexivity|]. exact (proj2 JacExactFloatRound.exf_conditions).
 Qed.
